@@ -89,6 +89,7 @@ class Sim:
         self.wait_called = None
         self.olog = []           # oracle events
         self.problems = []       # things that must never happen in the harness' own network
+        self.problems_impl = []  # unexpected exceptions out of the code under test
         self.t = 0
 
     # ---------------------------------------------------------------- recording
@@ -201,7 +202,7 @@ class Sim:
                 self.push("subend", ("node", c["node"], ("subend", call)))["ent"]["outs"].append(
                     ("res", "RNone" if okk else "RSubErr"))
                 self.pop()
-                self.ev("sub_end", c["node"], call, c["T"], c["r"], okk, True)
+                self.ev("sub_end", c["node"], call, c["T"], c["r"], okk, True, False)
 
     def op_sub(self, x, c, p, s, r):
         P, E = self.P, self.E
@@ -232,7 +233,7 @@ class Sim:
             self.calls[call] = dict(node=x, T=T, r=r, pend=self.wait_called)
         else:
             fr["ent"]["outs"].append(("res", res))
-            self.ev("sub_end", x, call, T, r, res == "RNone", False)
+            self.ev("sub_end", x, call, T, r, res == "RNone", False, res == "RUsage")
         self.pop()
 
     def op_unsub(self, x, c, p, s, r):
@@ -272,6 +273,12 @@ class Sim:
         except E.QMI_UsageException:
             usage = True
             fr["ent"]["outs"].append(("res", "RUsage"))
+        except Exception as exc:     # e.g. RuntimeError from iterating a set that changes
+            while self.stack[-1] is not fr:
+                self.pop()
+            usage = True
+            self.trace.append({"label": ("node", x, ("pubsnap", j)), "outs": [("exc", type(exc).__name__)]})
+            self.problems_impl.append("publish_signal raised %s" % type(exc).__name__)
         if not usage and not fr["snap"]:
             self.push("pubsnap", ("node", x, ("pubsnap", j)))
             self.pop()
@@ -589,8 +596,10 @@ class Oracle:
                     killed=False, t0=t, ex_any=ex, ex_all=ex, alone=alone, tainted0=tainted(x, T),
                     up=T[0] in peers[x] and x in peers.get(T[0], ()))
             elif k == "sub_end":
-                _, _, x, call, T, r, ok, waited = e
+                _, _, x, call, T, r, ok, waited, usage = e
                 info = inprog[(x, r, T)].pop(call)
+                if usage:
+                    continue
                 y, p, _s = T
                 if ok:
                     clean = not info["killed"] and not tainted(x, T) and not info["tainted0"]
@@ -727,6 +736,8 @@ class Oracle:
                                   "receiver %s/%d stayed subscribed to %r but got %d records of a delivered "
                                   "publication" % (x, r, T, count.get((x, r, a), 0)))
                 if pb["quiet"] and not anyrec:
+                    self.flag("c07:message-to-unsubscribed-peer",
+                              "at a quiescent point %s sent %r to peer %s where no receiver is subscribed" % (y, T, x))
                     self.flag("c08:leak",
                               "at a quiescent point %s transmitted %r to peer %s where no receiver is subscribed" % (
                                   y, T, x))
@@ -745,4 +756,6 @@ class Oracle:
                           "half-open connections closed" % (call, c["node"]))
         for p in sim.problems:
             self.flag("harness:" + p, p)
+        for p in sim.problems_impl:
+            self.flag("c07:exception:" + p, p)
         return self.bad
